@@ -309,7 +309,8 @@ def run(chk, facts, tier):
         "written to the store and every entity whose cached ancestors are edited is first inserted into the set handed to repair_tc, and the sweep that re-queues stored entities "
         "compares against their transitive ancestors; (STRIP) stripping of a removed/replaced entity's link and of all ancestors inherited through it is conditional only on being "
         "its descendant; (OWN) only the owner modules call the hierarchy-cache mutators or touch the cache fields, which are private; (CONST) every public API call passes "
-        "ComputeNow; (FIELD-USE) membership reads both edge sets. Does not decide that compute_tc/repair_tc compute reachability.")
+        "ComputeNow; (FIELD-USE) membership reads both edge sets; (TC) the closure and acyclicity checks are complete in structure: compute_tc always runs the SCC closure, repair_tc recomputes exactly the nodes to fix, "
+        "enforce_tc visits every (entity, parent, grandparent) triple and a missing edge is an error, the self-loop checks visit every node. Does not decide that compute_tc/repair_tc compute reachability.")
     chk.assumptions = ["compute_tc / repair_tc / enforce_tc_and_dag are correct algorithms (history- and graph-quantified; declined)",
                        "MIR at mir-opt-level=0 reflects source control flow"]
     mustpass_tc(chk, facts)
@@ -317,3 +318,5 @@ def run(chk, facts, tier):
     own(chk, facts)
     api_const(chk, facts)
     field_use(chk, facts)
+    from rules import c04_tc
+    c04_tc.check(chk, facts)
